@@ -502,11 +502,12 @@ fn ensure_comparable<'a>(keys: impl Iterator<Item = &'a Value>) -> TeraResult<()
 
 /// Sorts an array. If `attribute` is provided, sorts by that attribute.
 pub(crate) fn sort(val: &[Value], kwargs: Kwargs, _: &State) -> TeraResult<Vec<Value>> {
+    let attribute = kwargs.get::<&str>("attribute")?;
     if val.is_empty() {
         return Ok(Vec::new());
     }
 
-    if let Some(attribute) = kwargs.get::<&str>("attribute")? {
+    if let Some(attribute) = attribute {
         let mut decorated = Vec::with_capacity(val.len());
         for v in val {
             let key = match v.get_from_path(attribute) {
@@ -584,11 +585,11 @@ pub(crate) fn get(val: &Map, kwargs: Kwargs, _: &State) -> TeraResult<Value> {
 }
 
 pub(crate) fn group_by(val: &[Value], kwargs: Kwargs, _: &State) -> TeraResult<Map> {
+    let attribute = kwargs.must_get::<&str>("attribute")?;
     if val.is_empty() {
         return Ok(Map::new());
     }
 
-    let attribute = kwargs.must_get::<&str>("attribute")?;
     let mut grouped: HashMap<Key, Vec<Value>> = HashMap::new();
     for v in val {
         match v.get_from_path(attribute) {
